@@ -26,7 +26,8 @@ Inductive op :=
 | OGive (a : N) (n : nat)      (* n permits *)
 | OOpen (a : N)                (* open the gate *)
 | OStart (a : N)               (* a's parked pre_start returns Ok: a becomes Running; settle *)
-| OFailStart (a : N).          (* a's parked pre_start returns Err: a dies while Starting; settle *)
+| OFailStart (a : N)           (* a's parked pre_start returns Err: a dies while Starting; settle *)
+| ODrop.                       (* every handle of the port is dropped (no settle) *)
 
 Record scen := mkScen {
   sc_poison : list (N * N);    (* (actor, item): the handler fails after receiving item *)
@@ -96,6 +97,20 @@ Module X1.
                 end
     end.
 
+  (* a parked forwarder of a dropped port: recv reports Closed *)
+  Fixpoint pick_end (st : st) (l : list N) : option N :=
+    match l with
+    | [] => None
+    | s :: t => match tasks _ st s with
+                | Some sb => match s_pc _ sb with
+                             | PRecv => if closed _ st && Nat.eqb (tail _ st - s_cursor _ sb) 0
+                                        then Some s else pick_end st t
+                             | _ => pick_end st t
+                             end
+                | None => pick_end st t
+                end
+    end.
+
   Definition choose (p : list (N * N)) (h : hst) (st : st) : option (lab * hst) :=
     match h_dying h with
     | Some a => Some (LStop a, mkH (h_gate h) None (h_nsub h) (h_actors h))
@@ -106,9 +121,13 @@ Module X1.
             match pick_recv st (order _ st) with
             | Some s => Some (LRecv s, h)
             | None =>
-                match pick_actor (actors _ st) h (h_actors h) with
-                | Some (a, s, r) => Some (LHandle a s, after_handle p h a r)
-                | None => None
+                match pick_end st (order _ st) with
+                | Some s => Some (LEnd s, h)
+                | None =>
+                    match pick_actor (actors _ st) h (h_actors h) with
+                    | Some (a, s, r) => Some (LHandle a s, after_handle p h a r)
+                    | None => None
+                    end
                 end
             end
         end
@@ -159,6 +178,7 @@ Module X1.
     | OOpen a => set_h c (mkH (updf (h_gate h) a None) (h_dying h) (h_nsub h) (h_actors h))
     | OStart a => settle cap p fuel (fire cap c (LStart a))
     | OFailStart a => settle cap p fuel (fire cap c (LStop a))
+    | ODrop => fire cap c LClose
     end.
 
   Definition exec (cap : nat) (sc : scen) : cfg :=
@@ -253,6 +273,7 @@ Module X2.
     | OOpen a => set_h c (mkH (updf (h_gate h) a None) (h_dying h) (h_nsub h) (h_actors h))
     | OStart a => settle p fuel (fire c (LStart a))
     | OFailStart a => settle p fuel (fire c (LStop a))
+    | ODrop => fire c LClose
     end.
 
   Definition exec (sc : scen) : cfg :=
@@ -308,21 +329,36 @@ Definition started (a : N) (ops : list op) : bool :=
   existsb (fun o => match o with OStart a' => a' =? a | _ => false end) ops
   && negb (existsb (fun o => match o with OFailStart a' => a' =? a | _ => false end) ops).
 
-(* actor a reaches Running, is never killed, never poisoned, and its gate is open in the end *)
-Definition clean (sc : scen) (a : N) : bool :=
-  negb (killed a (sc_ops sc)) && negb (existsb (fun x => fst x =? a) (sc_poison sc))
-  && gate_open_at_end a (sc_ops sc) true && started a (sc_ops sc).
+(* the operations up to and including the first stop of actor a (its pre-settle closes the
+   last window before the stop); everything if a is never stopped *)
+Fixpoint upto_kill (a : N) (ops : list op) : list op :=
+  match ops with
+  | [] => []
+  | OKill a' :: t => if a' =? a then [OKill a'] else OKill a' :: upto_kill a t
+  | o :: t => o :: upto_kill a t
+  end.
+
+(* until it is stopped (if ever), actor a reaches Running, is not poisoned, and its gate is open
+   at that point: it must have handled everything delivered in the settle windows before *)
+Definition kills (a : N) (ops : list op) : nat :=
+  length (filter (fun o => match o with OKill a' => a' =? a | _ => false end) ops).
+
+Definition clean (sc : scen) (a : N) (after : list op) : bool :=
+  let ops := upto_kill a (sc_ops sc) in
+  negb (existsb (fun x => fst x =? a) (sc_poison sc))
+  && gate_open_at_end a ops true && started a ops
+  && Nat.eqb (kills a (sc_ops sc)) (kills a after).     (* not already stopped when subscribed *)
 
 Definition check_sub (v2 : bool) (cap : nat) (sc : scen) (a : N) (c : cspec)
            (after : list op) (got : list N) : bool :=
   let all := filter_map (cv c) (pubs_ops after) in
-  let '(ws, _) := windows after [] in
+  let '(ws, _) := windows (upto_kill a after) [] in
   let required :=
     flat_map (fun w => filter_map (cv c) (if v2 then w else lastn cap w)) ws in
   is_sublist got all                                   (* published after subscription, in order, each at most once *)
   && (if nodupb all then nodupb got else true)          (* never twice *)
   && (if v2 then is_prefix got all else true)           (* v2: none skipped *)
-  && (if clean sc a then is_sublist required got else true).   (* complete up to the ring size *)
+  && (if clean sc a after then is_sublist required got else true).   (* complete up to the ring size, until a is stopped *)
 
 Fixpoint check_ops (v2 : bool) (cap : nat) (sc : scen) (ops : list op) (res : list (list N)) : bool :=
   match ops with
